@@ -46,16 +46,16 @@ KNOWN = os.path.join(os.path.dirname(os.path.dirname(os.path.dirname(os.path.abs
 # When the entry disappears from known_findings.jsonl or is marked fixed the class is generated at full
 # rate again, so a regression is reported.  name -> exact key pattern of the known finding
 CONFINE = {
-    "rdc_basic_zero": "fb_rdc_basic|*|zero-result|crash:*",
-    "srt_quick_srtp": "fb_srt_quick|*|srtp|crash:*",
-    "fix_basic_long": "eb_mul_fix_basic|*|*long|crash:*",
-    "sim_trick_unit": "eb_mul_sim_trick|*|u*|crash:*",
-    "sim_joint_long_m": "eb_mul_sim_joint|*long:m|crash:*",
+    "rdc_basic_zero": ["fb_rdc_basic|*|zero-result|crash:*"],
+    "srt_quick_srtp": ["fb_srt_quick|*|srtp|crash:*"],
+    "fix_basic_long": ["eb_mul_fix_basic|*|*x[lh]|crash:*"],
+    "kbltz_tnaf_long": ["eb_mul_*|kbltz:*|*xl*|crash:*"],
 }
 
 
 def load_confined():
-    active = set()
+    """names of CONFINE whose (first) pattern is listed as known"""
+    listed = set()
     try:
         for ln in open(KNOWN):
             ln = ln.strip()
@@ -63,12 +63,10 @@ def load_confined():
                 continue
             k = json.loads(ln)
             if k.get("property") == "C16" and k.get("status") == "known":
-                for name, pat in CONFINE.items():
-                    if k.get("key") == pat:
-                        active.add(name)
+                listed.add(k.get("key"))
     except OSError:
         pass
-    return active
+    return set(name for name, pats in CONFINE.items() if pats[0] in listed)
 
 
 def parts(tier):
@@ -874,6 +872,7 @@ class Cv(object):
 
     def __init__(self, R, B, name, ident):
         self.name, self.ident = name, ident
+        self.tag = name
         r = R.call("eb_param_set", ident)
         if r.caught:
             raise RuntimeError("eb_param_set(%s) failed" % name)
@@ -895,6 +894,7 @@ class Cv(object):
         gx, gy, gz, gc = B.eb_get(g)
         R.free(g)
         self.kbltz = bool(L.eb_curve_is_kbltz())
+        self.tag = ("kbltz:" if self.kbltz else "plain:") + name
         self.C = C = BinCurve(F, self.a, self.b, self.n, self.h)
         self.G = (gx, gy)
         self.nbits = self.n.bit_length()
@@ -919,17 +919,31 @@ class Cv(object):
         C.fixed_base(self.G, self.tbits)
         self._aff = {}
 
-    def aff(self, d):
-        """affine coordinates of the descriptor (s, t)"""
-        s, t = d[0] % self.n, d[1] % self.h
-        v = self._aff.get((s, t))
+    def sub(self, s):
+        """[s]G; cached, and derived from the cached negative when that is known"""
+        s %= self.n
+        if s == 0:
+            return None
+        v = self._aff.get(s)
         if v is None:
-            v = self.C.add(self.C.mul_fixed(s, self.G, self.tbits) if s else None, self.tors[t])
-            if len(self._aff) < 4000:
-                self._aff[(s, t)] = v if v is not None else 0
-        elif v == 0:
-            v = None
+            w = self._aff.get(self.n - s)
+            if w is not None:
+                v = self.C.neg(w)
+            else:
+                v = self.C.mul_fixed(s, self.G, self.tbits)
+            if len(self._aff) < 20000:
+                self._aff[s] = v
         return v
+
+    def remember(self, s, P):
+        if P is not None:
+            self._aff[s % self.n] = P
+
+    def aff(self, d):
+        """affine coordinates of the descriptor (s, t) = [s]G + [t]T"""
+        t = d[1] % self.h
+        P = self.sub(d[0])
+        return self.C.add(P, self.tors[t]) if t else P
 
     def dmul(self, k, d):
         return ((k * d[0]) % self.n, (k * d[1]) % self.h)
@@ -948,22 +962,25 @@ class Cv(object):
             return "o2" if 2 * t == self.h else "o4"
         return "sub" if t == 0 else "out"
 
-    # scalar classes: residue tag + sign + range
+    # scalar classes: tag (z zero, u |k| = 1, r0 multiple of n, r) + sign + range
+    #   in |k| < n;  ge n <= |k| < 2^bits(n);  xw bits(n) < bits <= m;  xl m < bits <= m + 7;  xh beyond
+    def krange(self, k):
+        a = -k if k < 0 else k
+        bl = a.bit_length()
+        if a < self.n:
+            return "in"
+        if bl <= self.nbits:
+            return "ge"
+        if bl <= self.F.m:
+            return "xw"
+        return "xl" if bl <= self.F.m + 7 else "xh"
+
     def kcls(self, k):
         if k == 0:
             return "z"
         a = -k if k < 0 else k
-        bl = a.bit_length()
-        if a < self.n:
-            rg = "in"
-        elif bl <= self.nbits:
-            rg = "ge"
-        elif bl <= self.F.m:
-            rg = "wide"
-        else:
-            rg = "long"
         tag = "u" if a == 1 else ("r0" if a % self.n == 0 else "r")
-        return tag + ("-" if k < 0 else "+") + rg
+        return tag + ("-" if k < 0 else "+") + self.krange(k)
 
     def in_range(self, k):
         return 0 <= k < self.n
@@ -1069,13 +1086,24 @@ class CurvePart(PointIO):
     # ------------------------------------------------------------------ point supply
     def make_pool(self, cv):
         rng = self.rng
-        n, h = cv.n, cv.h
-        pool = [(0, 0), (1, 0), (2, 0), (3, 0), (n - 1, 0), (n - 2, 0), ((n + 1) // 2, 0)]
-        pool += [(0, t) for t in range(1, h)]
-        pool += [(rng.randrange(1, n), 0) for _ in range(10)]
-        pool += [(rng.randrange(1, n), t) for t in range(1, h) for _ in range(2)]
-        pool += [(1, h // 2), (n - 1, h // 2)]
-        self.pool = pool
+        n = cv.n
+        self.fixed = [1, 2, 3, n - 1, n - 2, (n + 1) // 2]
+        self.subs = list(self.fixed) + [rng.randrange(4, n - 2) for _ in range(12)]
+        for s in self.subs:
+            cv.sub(s)
+
+    def fresh(self, cv):
+        """a new subgroup point as the model sum of two known ones (one affine addition)"""
+        rng = self.rng
+        i, j = rng.randrange(len(self.subs)), rng.randrange(len(self.subs))
+        if i == j:
+            return self.subs[i]
+        s = (self.subs[i] + self.subs[j]) % cv.n
+        if s == 0:
+            return self.subs[i]
+        cv.remember(s, cv.C.add(cv.sub(self.subs[i]), cv.sub(self.subs[j])))
+        self.subs[rng.randrange(len(self.fixed), len(self.subs))] = s
+        return s
 
     def pick(self, cv, kinds=None):
         rng = self.rng
@@ -1085,11 +1113,9 @@ class CurvePart(PointIO):
                 d = (0, 0)
             elif c < 0.14:
                 d = (0, rng.randrange(1, cv.h))
-            elif c < 0.2:
-                d = (rng.randrange(1, cv.n), rng.randrange(cv.h))
-                self.pool[rng.randrange(7 + cv.h - 1, len(self.pool))] = d
             else:
-                d = rng.choice(self.pool)
+                s = self.fresh(cv) if rng.random() < 0.5 else rng.choice(self.subs)
+                d = (s, rng.randrange(1, cv.h) if c < 0.24 else 0)
             if kinds is None or cv.pcls(d) in kinds:
                 return d
         return (1, 0)
@@ -1121,7 +1147,7 @@ class CurvePart(PointIO):
         d = self.pick(cv)
         rep = self.rep_for(cv, d, "B" if impl.endswith("basic") else "P")
         alias = rng.randrange(2)
-        key = "%s|%s|%s|%s|alias%d" % (impl, cv.name, cv.pcls(d), self.repcls(rep), alias)
+        key = "%s|%s|%s|%s|alias%d" % (impl, cv.tag, cv.pcls(d), self.repcls(rep), alias)
         with Case(ctx, key, {"P": dshow(d), "rep": rep}, nontrivial=cv.pcls(d) != "inf") as go:
             if go:
                 self.put(cv, self.p, cv.aff(d), rep)
@@ -1178,7 +1204,7 @@ class CurvePart(PointIO):
             e, rq, rel = d, rp, "eq"
         P, Q = cv.aff(d), cv.aff(e)
         exp = cv.C.sub(P, Q) if sub else cv.C.add(P, Q)
-        key = "%s|%s|%s|%s|alias%d" % (impl, cv.name, self.paircls(cv, d, e, rel), self.repcls(rp, rq), alias)
+        key = "%s|%s|%s|%s|alias%d" % (impl, cv.tag, self.paircls(cv, d, e, rel), self.repcls(rp, rq), alias)
         with Case(ctx, key, {"P": dshow(d), "Q": dshow(e), "reps": [rp, rq]},
                   nontrivial=P is not None and Q is not None) as go:
             if go:
@@ -1204,7 +1230,7 @@ class CurvePart(PointIO):
         d = self.pick(cv)
         rep = self.rep_for(cv, d, "B" if impl.endswith("basic") else "P")
         alias = rng.randrange(2)
-        key = "%s|%s|%s|%s|alias%d" % (impl, cv.name, cv.pcls(d), self.repcls(rep), alias)
+        key = "%s|%s|%s|%s|alias%d" % (impl, cv.tag, cv.pcls(d), self.repcls(rep), alias)
         with Case(ctx, key, {"P": dshow(d), "rep": rep}, nontrivial=cv.pcls(d) != "inf") as go:
             if go:
                 P = cv.aff(d)
@@ -1236,7 +1262,7 @@ class CurvePart(PointIO):
             rep = "H"
         alias = rng.randrange(2)
         qc = "inf" if Q is None else ("o2" if Q[0] == 0 else "2*" + pc)
-        key = "eb_hlv|%s|%s|%s|alias%d" % (cv.name, qc, self.repcls(rep), alias)
+        key = "eb_hlv|%s|%s|%s|alias%d" % (cv.tag, qc, self.repcls(rep), alias)
         with Case(ctx, key, {"half": pshow(P), "rep": rep}, nontrivial=Q is not None) as go:
             if go:
                 self.put(cv, self.p, Q, rep)
@@ -1266,7 +1292,7 @@ class CurvePart(PointIO):
         d = self.pick(cv)
         rep = self.rep_for(cv, d, "P", allow_h=True)
         alias = rng.randrange(2)
-        key = "eb_frb|%s|%s|%s|alias%d" % (cv.name, cv.pcls(d), self.repcls(rep), alias)
+        key = "eb_frb|%s|%s|%s|alias%d" % (cv.tag, cv.pcls(d), self.repcls(rep), alias)
         with Case(ctx, key, {"P": dshow(d), "rep": rep}, nontrivial=cv.pcls(d) != "inf") as go:
             if go:
                 P = cv.aff(d)
@@ -1281,7 +1307,7 @@ class CurvePart(PointIO):
         d = self.pick(cv)
         rep = self.rep_for(cv, d, "P", allow_h=True)
         alias = rng.randrange(2)
-        key = "eb_norm|%s|%s|%s|alias%d" % (cv.name, cv.pcls(d), rep, alias)
+        key = "eb_norm|%s|%s|%s|alias%d" % (cv.tag, cv.pcls(d), rep, alias)
         with Case(ctx, key, {"P": dshow(d), "rep": rep}, nontrivial=cv.pcls(d) != "inf") as go:
             if go:
                 P = cv.aff(d)
@@ -1304,7 +1330,7 @@ class CurvePart(PointIO):
         stale = (not alias) and rng.random() < 0.3
         if stale:
             cls += ",dst-tagged-affine"
-        key = "eb_norm_sim|%s|%s|n%s|alias%d" % (cv.name, cls, "1" if n == 1 else ">1", alias)
+        key = "eb_norm_sim|%s|%s|n%s|alias%d" % (cv.tag, cls, "1" if n == 1 else ">1", alias)
         with Case(ctx, key, {"P": [dshow(d) for d in ds], "reps": reps}, nontrivial=not infs) as go:
             if go:
                 t = B.eb_new(n)
@@ -1331,7 +1357,7 @@ class CurvePart(PointIO):
         d, e, rel = self.pair(cv)
         rp = self.rep_for(cv, d, "P", allow_h=True)
         rq = self.rep_for(cv, e, "P", allow_h=True)
-        key = "eb_cmp|%s|%s|%s" % (cv.name, self.paircls(cv, d, e, rel), self.repcls(rp, rq))
+        key = "eb_cmp|%s|%s|%s" % (cv.tag, self.paircls(cv, d, e, rel), self.repcls(rp, rq))
         with Case(ctx, key, {"P": dshow(d), "Q": dshow(e), "reps": [rp, rq]}) as go:
             if go:
                 P, Q = cv.aff(d), cv.aff(e)
@@ -1360,7 +1386,7 @@ class CurvePart(PointIO):
             valid = cv.C.on_curve(P)
             if P[0] == 0 and rep == "H":
                 rep = "B"
-        key = "eb_on_curve|%s|%s|%s" % (cv.name, ("valid:" + cv.pcls(d)) if valid else "invalid", rep)
+        key = "eb_on_curve|%s|%s|%s" % (cv.tag, ("valid:" + cv.pcls(d)) if valid else "invalid", rep)
         with Case(ctx, key, {"P": pshow(P), "rep": rep}) as go:
             if go:
                 self.put(cv, self.p, P, rep)
@@ -1375,20 +1401,20 @@ class CurvePart(PointIO):
         P = cv.aff(d)
         if c == 0:
             rep = self.rep_for(cv, d, "P")
-            with Case(ctx, "eb_is_infty|%s|%s|%s" % (cv.name, cv.pcls(d), rep), {"P": dshow(d)}) as go:
+            with Case(ctx, "eb_is_infty|%s|%s|%s" % (cv.tag, cv.pcls(d), rep), {"P": dshow(d)}) as go:
                 if go:
                     self.put(cv, self.p, P, rep)
                     res = self.call("eb_is_infty", self.p)
                     ctx.check(not res.caught and res.i == int(P is None), None, {"got": res.i})
         elif c == 1:
-            with Case(ctx, "eb_set_infty|%s|" % cv.name, {}) as go:
+            with Case(ctx, "eb_set_infty|%s|" % cv.tag, {}) as go:
                 if go:
                     B.eb_fill(self.r, R.poison)
                     if self.no_error(self.call("eb_set_infty", self.r)):
                         self.expect(cv, self.r, None)
         elif c == 2:
             rep = self.rep_for(cv, d, "P", allow_h=True)
-            with Case(ctx, "eb_copy|%s|%s|%s" % (cv.name, cv.pcls(d), rep), {"P": dshow(d)}) as go:
+            with Case(ctx, "eb_copy|%s|%s|%s" % (cv.tag, cv.pcls(d), rep), {"P": dshow(d)}) as go:
                 if go:
                     self.put(cv, self.p, P, rep)
                     B.eb_fill(self.r, R.poison)
@@ -1396,7 +1422,7 @@ class CurvePart(PointIO):
                         ctx.check(B.eb_get(self.r) == B.eb_get(self.p), ctx.cur_key + "|value")
         elif c == 3:
             if rng.random() < 0.1:
-                with Case(ctx, "eb_rand|%s|" % cv.name, {}, nontrivial=False) as go:
+                with Case(ctx, "eb_rand|%s|" % cv.tag, {}, nontrivial=False) as go:
                     if go:
                         B.eb_fill(self.r, R.poison)
                         if self.no_error(self.call("eb_rand", self.r)):
@@ -1408,7 +1434,7 @@ class CurvePart(PointIO):
             rep = self.rep_for(cv, d, "P")
             if P is None:
                 return
-            with Case(ctx, "eb_blind|%s|%s|%s" % (cv.name, cv.pcls(d), self.repcls(rep)), {"P": dshow(d)}) as go:
+            with Case(ctx, "eb_blind|%s|%s|%s" % (cv.tag, cv.pcls(d), self.repcls(rep)), {"P": dshow(d)}) as go:
                 if go:
                     self.put(cv, self.p, P, rep)
                     B.eb_fill(self.r, R.poison)
@@ -1417,7 +1443,7 @@ class CurvePart(PointIO):
         elif c == 5:
             x = rng.choice([0, 1, rng.getrandbits(B.m), P[0] if P else 2])
             F = cv.F
-            with Case(ctx, "eb_rhs|%s|%s" % (cv.name, fcls(x, B.m)), [hx(x)]) as go:
+            with Case(ctx, "eb_rhs|%s|%s" % (cv.tag, fcls(x, B.m)), [hx(x)]) as go:
                 if go:
                     B.fb_put(self.fa, x)
                     B.fb_fill(self.fc, R.poison)
@@ -1432,7 +1458,7 @@ class CurvePart(PointIO):
             w = rng.choice([2, 3, 4, 5, 6])
             n = 1 << (w - 2)
             rep = self.rep_for(cv, d, "P")
-            with Case(ctx, "eb_tab|%s|%s|w%d|%s" % (cv.name, cv.pcls(d), w, self.repcls(rep)), {"P": dshow(d)}) as go:
+            with Case(ctx, "eb_tab|%s|%s|w%d|%s" % (cv.tag, cv.pcls(d), w, self.repcls(rep)), {"P": dshow(d)}) as go:
                 if go:
                     t = B.eb_new(n)
                     try:
@@ -1561,10 +1587,11 @@ class MulPart(PointIO):
             return rng.randrange(n, 1 << cv.nbits)
         if c == 14:     # bits(n) < bits(k) <= m
             return rng.getrandbits(m) | (1 << rng.randrange(cv.nbits, m))
-        if c == 15:     # just beyond the field size
-            return rng.getrandbits(m + 8) | (1 << rng.randrange(m, m + 8))
+        if c == 15:     # just beyond the field size: m < bits <= m + 7 (passes the length checks of the recodings)
+            return rng.getrandbits(m + 7) | (1 << rng.randrange(m, m + 7))
         if c == 16:
-            return rng.choice([1 << m, (1 << m) - 1, (1 << (m + 1)) - 1, 1 << (m - 1), (1 << (m + 2)) - 1, 1 << (m + 2)])
+            return rng.choice([1 << m, (1 << m) - 1, (1 << (m + 1)) - 1, 1 << (m - 1), (1 << (m + 2)) - 1, 1 << (m + 2),
+                               (1 << (m + 7)) - 1, 1 << (m + 7)])
         if c == 17:
             return rng.getrandbits(rng.choice([300, 320, 400, 512]))
         if c == 18:
@@ -1572,7 +1599,7 @@ class MulPart(PointIO):
         if c == 19:
             return n * n
         if c == 20:
-            return -rng.getrandbits(m + 8)
+            return -(rng.getrandbits(m + 7) | (1 << rng.randrange(m - 2, m + 7)))
         if c == 21:     # high and low halves sparse: long runs of zeros in every recoding
             return ((1 << (cv.nbits - 2)) | rng.getrandbits(16)) % n
         if c == 22:
@@ -1580,24 +1607,40 @@ class MulPart(PointIO):
         return rng.randrange(1, n)
 
     def paircls(self, cv, k, m):
-        ck, cm = cv.kcls(k), cv.kcls(m)
+        """class of a scalar pair: tag + widest range (of the magnitudes); beyond m bits the operands concerned are named
+        (xl:k, xl:m, xl:km, xh:...; the generators never mix xl and xh in one pair)"""
         if k == 0 or m == 0:
             tag = "z"
         elif abs(k) == 1 or abs(m) == 1:
             tag = "u"
-        elif ck.startswith("r0") or cm.startswith("r0"):
+        elif k % cv.n == 0 or m % cv.n == 0:
             tag = "r0"
         else:
             tag = "r"
-        rank = {"z": 0, "in": 1, "ge": 2, "wide": 3, "long": 4}
-        rk = "z" if k == 0 else ck[ck.index("+") + 1 if "+" in ck else ck.index("-") + 1:]
-        rm = "z" if m == 0 else cm[cm.index("+") + 1 if "+" in cm else cm.index("-") + 1:]
+        rank = {"in": 1, "ge": 2, "xw": 3, "xl": 4, "xh": 5}
+        rk, rm = cv.krange(k), cv.krange(m)
         top = rk if rank[rk] >= rank[rm] else rm
-        if top == "z":
-            top = "in"
-        if top == "long":
-            top = "long:" + ("k" if rk == "long" else "") + ("m" if rm == "long" else "")
-        return tag + ("-" if (k < 0 or m < 0) else "+") + top
+        if rank[top] >= 4:
+            top += ":" + ("k" if rank[rk] >= 4 else "") + ("m" if rank[rm] >= 4 else "")
+        return tag + "," + top
+
+    def scalar_pair(self, cv, hostile):
+        k, m = self.scalar(cv, hostile), self.scalar(cv, hostile)
+        rk, rm = cv.krange(k), cv.krange(m)
+        if {rk, rm} == {"xl", "xh"}:
+            if rk == "xh":
+                k = (k % (1 << (self.B.m + 6))) | (1 << (self.B.m + 5))
+            else:
+                m = (m % (1 << (self.B.m + 6))) | (1 << (self.B.m + 5))
+        return k, m
+
+    TNAF = ("eb_mul_lwnaf", "eb_mul_rwnaf", "eb_mul_fix_lwnaf", "eb_mul_sim_basic", "eb_mul_sim_trick",
+            "eb_mul_sim_inter", "eb_mul_sim_gen")
+
+    def tnaf_confined(self, cv, impl, *ks):
+        """Koblitz curve, routine that recodes with bn_rec_tnaf, a scalar of m+1..m+7 bits"""
+        return (cv.kbltz and impl in self.TNAF and "kbltz_tnaf_long" in self.confined and
+                any(cv.krange(k) == "xl" for k in ks))
 
     # ------------------------------------------------------------------ verdict
     def judge(self, cv, res, out, exp, in_range):
@@ -1608,24 +1651,81 @@ class MulPart(PointIO):
             return
         self.expect(cv, out, exp, affine=True)
 
-    def point(self, cv, special=0.12):
+    def make_pool(self, cv):
+        """subgroup base points with known discrete logarithm; the pool evolves by model additions (cheap),
+        so almost every case sees a different point without a model scalar multiplication per point"""
+        rng = self.rng
+        self.fixed = [1, 2, 3, cv.n - 1]
+        self.pool = list(self.fixed) + [rng.randrange(4, cv.n - 1) for _ in range(10)]
+        for s in self.pool:
+            cv.sub(s)
+
+    def fresh(self, cv):
+        rng = self.rng
+        i, j = rng.randrange(len(self.pool)), rng.randrange(len(self.pool))
+        s = (self.pool[i] + self.pool[j]) % cv.n
+        if s == 0 or i == j:
+            s = (2 * self.pool[i]) % cv.n
+            P = cv.C.dbl(cv.sub(self.pool[i]))
+        else:
+            P = cv.C.add(cv.sub(self.pool[i]), cv.sub(self.pool[j]))
+        if s == 0:
+            return 1
+        cv.remember(s, P)
+        self.pool[rng.randrange(len(self.fixed), len(self.pool))] = s
+        return s
+
+    def point(self, cv, special=0.09):
         rng = self.rng
         c = rng.random()
         if c < special / 3:
             return (0, 0)
         if c < 2 * special / 3:
             return (0, rng.randrange(1, cv.h))
+        s = self.fresh(cv) if rng.random() < 0.6 else rng.choice(self.pool)
         if c < special:
-            return (rng.randrange(1, cv.n), rng.randrange(1, cv.h))
-        if c < special + 0.25:
-            return rng.choice([(1, 0), (2, 0), (cv.n - 1, 0), (3, 0)])
-        return (rng.randrange(1, cv.n), 0)
+            return (s, rng.randrange(1, cv.h))
+        if c < special + 0.2:
+            return (rng.choice(self.fixed), 0)
+        return (s, 0)
 
     # ------------------------------------------------------------------ plain multiplications
-    def mul_case(self, cv, fn, d, k):
+    def relation(self, cv, d, e):
+        """inf | eq | neg | lin (a relation i*P +- j*Q = O with 1 <= i, j <= 3: a zero entry in window tables) | ne"""
+        if "inf" in (cv.pcls(d), cv.pcls(e)):
+            return "inf"
+        dn, en = (d[0] % cv.n, d[1] % cv.h), (e[0] % cv.n, e[1] % cv.h)
+        if dn == en:
+            return "eq"
+        if cv.dneg(d) == en:
+            return "neg"
+        for i in (1, 2, 3):
+            for j in (1, 2, 3):
+                for sg in (1, -1):
+                    if cv.dadd(cv.dmul(i, d), cv.dmul(sg * j, e)) == (0, 0):
+                        return "lin"
+        return "ne"
+
+    def tame(self, cv, d, k):
+        """base points outside <G> see scalars of at most bits(n) bits (their classes are only 'in' / 'off')"""
+        if cv.pcls(d) in ("o2", "o4", "out") and cv.krange(k) not in ("in", "ge"):
+            k = (abs(k) % cv.n) * (-1 if k < 0 else 1)
+        return k
+
+    def kc(self, cv, d, k):
+        """scalar class; for base points outside <G> only 'in range' / 'not in range' is distinguished"""
+        if cv.pcls(d) in ("o2", "o4", "out"):
+            return "in" if cv.in_range(k) else "off"
+        return cv.kcls(k)
+
+    def mul_case(self, cv, fn, d, k, force=False):
         ctx, R, B = self.ctx, self.R, self.B
         impl = impl_of(R, fn)
-        key = "%s|%s|%s|%s" % (impl, cv.name, cv.pcls(d), cv.kcls(k))
+        k = self.tame(cv, d, k)
+        if not force and self.tnaf_confined(cv, impl, k):
+            self.stepped += 1
+            return
+        key = "%s|%s|%s|%s" % (impl, cv.tag, cv.pcls(d), self.kc(cv, d, k))
         with Case(ctx, key, {"P": dshow(d), "k": hx(k), "via": fn},
                   nontrivial=cv.pcls(d) != "inf" and k % cv.n != 0) as go:
             if go:
@@ -1639,7 +1739,7 @@ class MulPart(PointIO):
 
     def gen_case(self, cv, k):
         ctx, R, B = self.ctx, self.R, self.B
-        key = "eb_mul_gen|%s|sub|%s" % (cv.name, cv.kcls(k))
+        key = "eb_mul_gen|%s|sub|%s" % (cv.tag, cv.kcls(k))
         with Case(ctx, key, {"k": hx(k)}, nontrivial=k % cv.n != 0) as go:
             if go:
                 B.eb_fill(self.r, R.poison)
@@ -1650,7 +1750,7 @@ class MulPart(PointIO):
     def dig_case(self, cv, d, k):
         ctx, R, B = self.ctx, self.R, self.B
         kc = "z" if k == 0 else ("u" if k == 1 else ("top" if k >> (R.DIG - 1) else "d"))
-        key = "eb_mul_dig|%s|%s|%s" % (cv.name, cv.pcls(d), kc)
+        key = "eb_mul_dig|%s|%s|%s" % (cv.tag, cv.pcls(d), kc)
         with Case(ctx, key, {"P": dshow(d), "k": hx(k)}, nontrivial=cv.pcls(d) != "inf" and k != 0) as go:
             if go:
                 self.put(cv, self.p, cv.aff(d), "B")
@@ -1677,7 +1777,7 @@ class MulPart(PointIO):
         tab = B.eb_new(size)
         B.eb_fill(tab, R.poison, size)
         ok = False
-        with Case(ctx, "%s|%s|%s" % (impl_of(R, pre), cv.name, cv.pcls(d)), {"P": dshow(d)},
+        with Case(ctx, "%s|%s|%s" % (impl_of(R, pre), cv.tag, cv.pcls(d)), {"P": dshow(d)},
                   nontrivial=cv.pcls(d) != "inf", budget=600) as go:
             if go:
                 self.put(cv, self.p, cv.aff(d), "B")
@@ -1691,11 +1791,13 @@ class MulPart(PointIO):
     def fix_case(self, cv, fix, tab, d, k, force=False):
         ctx, R, B = self.ctx, self.R, self.B
         impl = impl_of(R, fix)
-        kc = cv.kcls(k)
-        if impl == "eb_mul_fix_basic" and kc.endswith("long") and "fix_basic_long" in self.confined and not force:
-            self.stepped += 1
-            return
-        key = "%s|%s|%s|%s" % (impl, cv.name, cv.pcls(d), kc)
+        k = self.tame(cv, d, k)
+        if not force:
+            if (impl == "eb_mul_fix_basic" and cv.krange(k) in ("xl", "xh") and "fix_basic_long" in self.confined) \
+                    or self.tnaf_confined(cv, impl, k):
+                self.stepped += 1
+                return
+        key = "%s|%s|%s|%s" % (impl, cv.tag, cv.pcls(d), self.kc(cv, d, k))
         with Case(ctx, key, {"P": dshow(d), "k": hx(k), "via": fix},
                   nontrivial=cv.pcls(d) != "inf" and k % cv.n != 0) as go:
             if go:
@@ -1712,19 +1814,19 @@ class MulPart(PointIO):
         if gen:
             d = (1, 0)
         kinds = (cv.pcls(d), cv.pcls(e))
-        if "inf" in kinds:
-            rel = "inf"
+        rel = self.relation(cv, d, e)
         kind = [c for c in ("o2", "o4", "out", "sub", "inf") if c in kinds][0]
+        if kind in ("o2", "o4", "out"):
+            k, m = self.tame(cv, (1, 1), k), self.tame(cv, (1, 1), m)
         sc = self.paircls(cv, k, m)
+        if kind in ("o2", "o4", "out"):
+            sc = "in" if (cv.in_range(k) and cv.in_range(m)) else "off"
         live = k != 0 and m != 0 and "inf" not in kinds
         if not force:
-            if impl == "eb_mul_sim_trick" and sc.startswith("u") and live and "sim_trick_unit" in self.confined:
+            if self.tnaf_confined(cv, impl, k, m):
                 self.stepped += 1
                 return
-            if impl == "eb_mul_sim_joint" and sc.endswith("long:m") and live and "sim_joint_long_m" in self.confined:
-                self.stepped += 1
-                return
-        key = "%s|%s|%s:%s|%s" % (impl, cv.name, rel, kind, sc)
+        key = "%s|%s|%s:%s|%s" % (impl, cv.tag, rel, kind, sc)
         with Case(ctx, key, {"P": dshow(d), "Q": dshow(e), "k": hx(k), "m": hx(m), "via": fn},
                   nontrivial=live and k % cv.n != 0 and m % cv.n != 0) as go:
             if go:
@@ -1754,29 +1856,42 @@ class MulPart(PointIO):
         return d, e, ("eq" if dn == en else ("neg" if cv.dneg(d) == en else "ne"))
 
     # ------------------------------------------------------------------ drivers
-    def sacrificial(self, cv):
-        """the single directed case of every confined known fatal class"""
-        R = self.R
-        n = cv.n
+    def sacrificial(self, cv, idx):
+        """the single directed case of every confined known fatal class; the classes are split over the shards
+        (a report costs a restart of the worker, so they run before anything else)"""
+        R, ctx = self.R, self.ctx
+        n, m = cv.n, self.B.m
         d = (5, 0)
+        todo = []
         if "fix_basic_long" in self.confined and self.has("eb_mul_pre_basic"):
-            tab = self.fix_table(cv, "eb_mul_pre_basic", self.tabsz["basic"], d)
-            if tab:
-                self.fix_case(cv, "eb_mul_fix_basic", tab, d, (1 << (self.B.m + 1)) + 12345, force=True)
-                R.free(tab)
-        if "sim_trick_unit" in self.confined and self.has("eb_mul_sim_trick"):
-            self.sim_case(cv, "eb_mul_sim_trick", d, (7, 0), "ne", 1, n - 2, force=True)
-        if "sim_joint_long_m" in self.confined and self.has("eb_mul_sim_joint"):
-            self.sim_case(cv, "eb_mul_sim_joint", d, (7, 0), "ne", 3, (1 << (self.B.m + 1)) + 5, force=True)
+            for k in ((1 << (m + 1)) + 12345, (1 << (m + 40)) + 12345):
+                todo.append(("fix", k))
+        if "kbltz_tnaf_long" in self.confined and cv.kbltz and self.has("eb_mul_lwnaf"):
+            todo.append(("tnaf", None))
+        for what, k in todo:
+            mine = (idx % ctx.nshards) == ctx.shard
+            idx += 1
+            if not mine:
+                continue
+            if what == "fix":
+                tab = self.fix_table(cv, "eb_mul_pre_basic", self.tabsz["basic"], d)
+                if tab:
+                    self.fix_case(cv, "eb_mul_fix_basic", tab, d, k, force=True)
+                    R.free(tab)
+            else:
+                # a TNAF of a scalar of m + 7 bits is longer than the m + 8 entries of the callers' buffers
+                self.mul_case(cv, "eb_mul_lwnaf", d, (1 << (m + 6)) + 12345, force=True)
+        return idx
 
     def directed_scalars(self, cv):
         n, m = cv.n, self.B.m
         return [0, 1, -1, 2, 3, n - 1, n, n + 1, 2 * n, 2 * n + 1, 2 * n - 1, -n, -(n - 1), n - 2, (n - 1) // 2, (n + 1) // 2,
                 1 << (cv.nbits - 1), (1 << (cv.nbits - 1)) - 1, (1 << cv.nbits) - 1, 1 << (m - 1), (1 << m) - 1, 1 << m,
-                (1 << (m + 2)) - 1, 1 << (m + 2), n * n, (1 << 300) + 7]
+                (1 << (m + 2)) - 1, 1 << (m + 2), (1 << (m + 6)) + 12345, 1 << (m + 7), n * n, (1 << 300) + 7]
 
     def run_curve(self, cv, N):
         ctx, R, rng = self.ctx, self.R, self.rng
+        self.make_pool(cv)
         muls = [fn for fn in ("eb_mul_basic", "eb_mul_lodah", "eb_mul_lwnaf", "eb_mul_rwnaf", "eb_mul_halve", "eb_mul")
                 if self.has(fn)]
         sims = [fn for fn in ("eb_mul_sim_basic", "eb_mul_sim_trick", "eb_mul_sim_inter", "eb_mul_sim_joint",
@@ -1784,7 +1899,7 @@ class MulPart(PointIO):
         fixes = self.fix_variants()
         # ---- directed: every routine sees every distinguished scalar on G and on one random subgroup point
         ds = self.directed_scalars(cv)
-        rp = (rng.randrange(2, cv.n), 0)
+        rp = (self.pool[-1], 0)
         i = 0
         for k in ds:
             for fn in muls:
@@ -1809,6 +1924,16 @@ class MulPart(PointIO):
                             self.fix_case(cv, fix, tab, d, k)
                         R.free(tab)
             i += 1
+        # exceptional base points through every fixed-base variant
+        for pre, fix, size in fixes:
+            for d in ((0, cv.h // 2), (0, 1), (rp[0], cv.h // 2), (0, 0)):
+                if ctx.mine(i):
+                    tab = self.fix_table(cv, pre, size, d)
+                    if tab:
+                        for k in (1, 2, 3, 5, cv.n - 1, rng.randrange(1, cv.n), rng.randrange(1, cv.n)):
+                            self.fix_case(cv, fix, tab, d, k)
+                        R.free(tab)
+                i += 1
         # exceptional points through every routine
         for d in ((0, 0), (0, cv.h // 2), (0, 1), (rp[0], cv.h // 2), (rp[0], 1)):
             for fn in muls:
@@ -1816,13 +1941,14 @@ class MulPart(PointIO):
                     if ctx.mine(i):
                         self.mul_case(cv, fn, d, k)
                     i += 1
-        small = [0, 1, -1, 2, 3, cv.n - 1, cv.n, cv.n + 1, -cv.n, rng.randrange(1, cv.n), (1 << self.B.m) + 9]
+        small = [0, 1, -1, 2, cv.n - 1, cv.n, rng.randrange(1, cv.n), (1 << self.B.m) + 9, (1 << (self.B.m + 30)) + 9]
         for fn in sims:
             for (d, e, rel) in (((1, 0), rp, "ne"), (rp, rp, "eq"), (rp, cv.dneg(rp), "neg"), ((0, 0), rp, "inf"),
-                                (rp, (0, 0), "inf"), ((1, 0), (0, cv.h // 2), "ne")):
+                                (rp, (0, 0), "inf"), ((1, 0), (0, cv.h // 2), "ne"), ((3, 0), (cv.n - 1, 0), "lin"),
+                                (rp, (0, 1), "ne")):
                 for k in small:
                     for m in small:
-                        if ctx.mine(i):
+                        if ctx.mine(i) and {cv.krange(k), cv.krange(m)} != {"xl", "xh"}:
                             self.sim_case(cv, fn, d, e, rel, k, m)
                         i += 1
         # ---- random
@@ -1854,7 +1980,8 @@ class MulPart(PointIO):
                     it += 1
             else:
                 d, e, rel = self.sim_points(cv)
-                self.sim_case(cv, rng.choice(sims), d, e, rel, self.scalar(cv, 0.35), self.scalar(cv, 0.35))
+                k, m = self.scalar_pair(cv, 0.35)
+                self.sim_case(cv, rng.choice(sims), d, e, rel, k, m)
                 it += 1
 
 
@@ -1865,10 +1992,10 @@ def run_mul_part(ctx, R, B):
         raise RuntimeError("no binary curve accepted by eb_param_set in this build")
     cvs = [Cv(R, B, nm, v) for nm, v in ids]
     # known fatal classes first (a report costs a restart of this worker)
-    if ctx.shard == 0:
-        for cv in cvs:
-            R.call("eb_param_set", cv.ident)
-            mp.sacrificial(cv)
+    idx = 0
+    for cv in cvs:
+        R.call("eb_param_set", cv.ident)
+        idx = mp.sacrificial(cv, idx)
     N = ctx.n(900, 16000)
     for cv in cvs:
         R.call("eb_param_set", cv.ident)
